@@ -218,18 +218,40 @@ def main(tier):
     if fu is None:
         run.anchor_missing(r5, "from_utf8", "not found")
     else:
-        lows = [n for n in hir_walk(fu.hir) if isinstance(n, dict) and n.get("k") == "mcall" and n["name"] == "to_ascii_lowercase"]
-        look = [n for n in hir_walk(fu.hir) if isinstance(n, dict) and n.get("k") == "call" and
-                str(n.get("fn", "")).endswith("get_for_bcp47_bytes")]
-        ok_look = bool(look) and any(isinstance(x, dict) and x.get("k") == "mcall" and x["name"] == "to_ascii_lowercase"
-                                     for x in hir_walk(look[0]["args"][0]))
-        cmpn = [n for n in hir_walk(fu.hir) if isinstance(n, dict) and n.get("k") == "bin" and n["op"] == "==" and
-                "iso8601" in strs(n)]
-        ok_cmp = bool(cmpn) and any(isinstance(x, dict) and x.get("k") == "mcall" and x["name"] == "to_ascii_lowercase"
-                                    for x in hir_walk(cmpn[0]))
-        run.check(ok_look and ok_cmp, r5, "from_utf8", "both comparisons on the lowercased bytes",
-                  "from_utf8 compares without lowercasing (iso8601 comparison lowercased: %s, library lookup lowercased: %s)"
-                  % (ok_cmp, ok_look), fu.loc)
+        # dataflow on the folded terms: wherever the input reaches the "iso8601" comparison or the library lookup it does so
+        # through to_ascii_lowercase (or a case-insensitive comparison); a use of the raw bytes there is the violation; if
+        # neither use is recognisable the rule is not decided
+        evu = H.Evaluator(fx)
+        evu.inline = lambda p: p.startswith("temporal_rs::error::")
+        pname = fu.params[0]["name"] if fu.params else "bytes"
+        try:
+            upaths = evu.paths(fu, [H.Sym("param", (pname,))], max_paths=64)
+        except (H.Budget, H.Panic):
+            upaths = None
+
+        def raw_use(text):
+            """None: the input does not occur; False: only under a case-folding call; True: raw"""
+            if "$" + pname not in text:
+                return None
+            t = re.sub(r"(?:to_ascii_lowercase|to_lowercase|eq_ignore_ascii_case|make_ascii_lowercase)\((?:[^()]|\([^()]*\))*\)", "", text)
+            return ("$" + pname) in t
+
+        uses = {"cmp": [], "look": []}
+        for dec, res, tr in (upaths or []):
+            for cond, ch in dec:
+                if "iso8601" in cond.lower() or "ISO_IDENTIFIER" in cond:
+                    uses["cmp"].append(raw_use(cond))
+            for c in tr:
+                if str(c.parts[0]).endswith("get_for_bcp47_bytes") and c.parts[1]:
+                    uses["look"].append(raw_use(show(c.parts[1][0])))
+        if upaths is None or not [u for u in uses["cmp"] + uses["look"] if u is not None]:
+            run.ok(r5, "from_utf8", "neither the iso8601 comparison nor the library lookup is recognisable on the folded paths: "
+                   "not decided", fu.loc, nontrivial=False)
+        else:
+            bad_cmp, bad_look = any(u is True for u in uses["cmp"]), any(u is True for u in uses["look"])
+            run.check(not bad_cmp and not bad_look, r5, "from_utf8", "the input reaches both comparisons lowercased only",
+                      "from_utf8 compares without lowercasing (iso8601 comparison on the raw input: %s, library lookup on the "
+                      "raw input: %s)" % (bad_cmp, bad_look), fu.loc)
     idf = rs.fn1("Calendar::identifier")
     if idf is not None:
         leaves = result_leaves(fx, idf)
